@@ -127,6 +127,10 @@ class SharedMemoryFileBufferedCollection(FileBufferedCollection):
                     if cached_data["modified"]:
                         if cached_data["metadata"] != self._get_file_metadata():
                             raise MetadataError(self._filename, cached_data["contents"])
+                        # The buffered data may have been modified through another
+                        # collection bound to the same file, so it must be saved
+                        # rather than the possibly stale data of this instance.
+                        self._data = cached_data["contents"]
                         self._save_to_resource()
                 finally:
                     # Whether or not an error was raised, the cache must be
